@@ -192,6 +192,13 @@ def check(case, r, tier):
                 chars.append(ch)
             # plus characters foreign to the charset
             chars += [chr(cp) for cp in (0x100 + case["bytes"][0], 0x2713, 0x1F600 + case["bytes"][0] % 7)]
+            if cs == "bk":
+                table = set(bytes(range(256)).decode("bk")) | {"\u00a4"}
+                foreign = [chr(cp) for cp in range(0x7F + case["bytes"][0] // 2, min(0x7F + case["bytes"][0] // 2 + 32, 0x100)) if chr(cp) not in table]
+                for ch in foreign:
+                    for q in ('"', "/"):
+                        bad.append(((cs, "foreign-low", q, ord(ch)), ".ascii %s" % quote_text("x" + ch + "y", q)))
+                    bad.append(((cs, "foreign-low-char", ord(ch)), ".word '%s" % ch))
         else:
             chars = [chr(cp) for cp in case["cps"]]
         for ch in chars:
@@ -228,6 +235,18 @@ def check(case, r, tier):
         for esc in ("q", "z", "0", "e", "xg1", "x1z", "x"):
             bad.append(((cs, "badesc", esc), '.ascii "a\\%sb"' % esc))
     elif k == "short":
+        if True:
+            # multi-byte characters next to a <symbol> chunk defined later, followed by address-sensitive statements:
+            # the announced size (if any) must be the number of *bytes*
+            for txt in ("\u00e9", "a\u00e9", "\u044f\u044f", "\u20ac", "a"):
+                e = ref_encode(txt, cs)
+                if e is None or e == "skip":
+                    continue
+                for d, tail in ((".ascii", b""), (".asciz", b"\x00")):
+                    body = e + b"\x0d" + tail
+                    pad = b"\x00" * (len(body) % 2)
+                    uid = "%s%d%d" % (d[-1], len(good), len(e))
+                    good.append(((cs, "late-angle", d, txt), "%s \"%s\"<cr%s>\n.even\n.word 401\ncr%s = 15" % (d, txt, uid, uid), body + pad + b"\x01\x01"))
         elems = ["a", "я", "Q", "\\", "<12>"]
         for L in (0, 1, 2):
             for combo in itertools.product(elems, repeat=L):
